@@ -281,7 +281,12 @@ func (c *RollingFileAppender) clearExpiredFiles() {
 		if !ok {
 			continue
 		}
-		// Only files this appender itself could have produced.
+		// Only files this appender itself could have produced: exactly the
+		// 14-digit timestamp (time.Parse alone would also accept a trailing
+		// fractional second such as ".5").
+		if len(suffix) != 14 {
+			continue
+		}
 		if _, err := time.Parse("20060102150405", suffix); err != nil {
 			continue
 		}
